@@ -27,7 +27,7 @@ vars == <<l, snap>>
 
 GC(r) == INSTANCE GriddleCount WITH
             R <- RR, GW <- GWW, MaxUsize <- MU, ElemSize <- 8,
-            FixD1 <- TRUE, FixD4 <- TRUE, FixD6 <- TRUE, Debug <- (Hdr.profile = "debug"),
+            FixD1 <- TRUE, FixD4 <- TRUE, FixD6 <- TRUE, FixD8 <- TRUE, Debug <- (Hdr.profile = "debug"),
             mB <- r.mB, mI <- r.mI, mG <- r.mG, oP <- r.oP, oB <- r.oB, oI <- r.oI, cI <- r.cI, err <- r.err
 HB == INSTANCE Hashbrown WITH GW <- GWW, MaxUsize <- MU, ElemSize <- 8
 
